@@ -105,7 +105,13 @@ WRAPPERS = [
     ("lambda-call", "{{ pkgs }}:\npkgs.mk {S}"),
     ("lambda-with", "{{ pkgs }}:\nwith pkgs;\n{S}"),
     ("lambda-call-paren", "{{ pkgs }}:\npkgs.mk ({S})"),
+    # the usual nixpkgs layout: a blank line (or a comment) between the wrapper head and the set
+    ("lambda-formals-blank", "{{ pkgs, ... }}:\n\n{S}"),
+    ("assert-blank", "assert c;\n\n{S}"),
+    ("lambda-comment", "{{ pkgs }}:\n# note\n{S}"),
+    ("header-lambda-call-blank", "# header\n{{ pkgs }}:\n\npkgs.mk {S}"),
 ]
+CALL_WRAPPERS = ("call", "call-select", "lambda-call", "header-lambda-call-blank")
 NON_EDITABLE = ["[ 1 2 ]", "1", '"s"', "x: x", "x", "a.b", "f 1", "if c then { a = 1; } else { a = 2; }"]
 ERRONEOUS = ["{ a = 1; ", "{ a = ; }", "{ a = 1 }", "a = 1;", "{ a = 1; } }", "let in", "{ a = 1; b = [ 1 2; }", ")("]
 
@@ -139,7 +145,7 @@ def gen_doc(rng: random.Random, final_newline=None):
     layers = gen_layers(rng, nlayers)
     inner_pos = rng.random() < 0.7  # lets directly around the set (layers of the target) vs outside the wrapper
     s = body.render()
-    if inner_pos and wname not in ("call", "call-select", "lambda-call", "paren", "lambda-call-paren"):
+    if inner_pos and wname not in CALL_WRAPPERS + ("paren", "lambda-call-paren"):
         text = wtpl.replace("{S}", "".join(layers) + s).replace("{{", "{").replace("}}", "}")
     elif inner_pos and wname in ("paren", "lambda-call-paren"):
         text = wtpl.replace("{S}", "".join(layers) + s).replace("{{", "{").replace("}}", "}")
@@ -216,7 +222,7 @@ def enumerate_single_ops():
     for wname, wtpl in WRAPPERS:
         for bi, body in enumerate(bodies):
             for li, lay in enumerate(layers_opts):
-                if wname in ("call", "call-select", "lambda-call"):
+                if wname in CALL_WRAPPERS:
                     text = lay + wtpl.replace("{S}", body)
                 else:
                     text = wtpl.replace("{S}", lay + body)
